@@ -154,6 +154,8 @@ func c07(tier string) []*explore.Scenario {
 		"unread/m=2/read=1/other=false", "deadline/rounds=1/deaf=false", "predone/Bidi")...)...)
 	out = append(out, withConfig(configKinds(tier), pickScenarios(out, "cancel/pingpong/at=2/cap=64/others=0/ctxrace=false/deadline=false", "cancel/sendall/at=3/cap=0/others=0/ctxrace=false/deadline=false",
 		"unread/m=2/read=1/other=false", "deadline/rounds=1/deaf=false", "predone/Bidi")...)...)
+	// double faults: an operation inside the transport's Write when the context ends / the read side fails, and the fate of that write
+	out = append(out, opInWriteAll("C07", 1)...)
 	return out
 }
 
